@@ -218,9 +218,8 @@ theorem heldOf_rows (l : List (Stream α)) (t : Nat) : heldOf (l.map rowOf) t = 
     unfold heldOf findStream at ih ⊢
     simp only [List.map_cons, List.find?_cons]
     by_cases h : a.id = t
-    · have h1 : ((rowOf a).t == t) = true := by simp [rowOf, h]
-      have h2 : (a.id == t) = true := by simp [h]
-      simp [h1, h2, rowOf]
+    · have h2 : (a.id == t) = true := by simp [h]
+      simp [h2, rowOf]
     · have h1 : ((rowOf a).t == t) = false := by simp [rowOf, h]
       have h2 : (a.id == t) = false := by simp [h]
       simp only [h1, h2]
@@ -385,7 +384,7 @@ theorem hRel_init (cfg : Cfg) (sn : σ) : HRel sn (holdInit : HoldS σ) (init cf
     by_cases ht : t = 0
     · subst ht; simp
     · have : ((0 : Nat) == t) = false := by simp; omega
-      simp [List.find?_cons, this]
+      simp [this]
   · intro k; simp [holdInit, endedAt, init]
 
 theorem hold_accepts_from (sn : σ) : ∀ (ls : List (Label α)) (c : Conn α) (m : HoldS σ), Inv c → InvLive c → HRel sn m c →
